@@ -340,7 +340,7 @@ def run_pack(rep, drv, tier, workers):
 # --------------------------------------------------------------------------
 # %q
 
-QUOTE_CFGS = {"quick": ["QuoteStrQ.cfg", "QuoteNum.cfg"], "thorough": ["QuoteStrT.cfg", "QuoteNum.cfg"]}
+QUOTE_CFGS = {"quick": ["QuoteStrQ.cfg", "QuoteNum.cfg"], "thorough": ["QuoteStrT.cfg", "QuoteStrT4.cfg", "QuoteNum.cfg"]}
 
 
 def float_bits(g):
